@@ -2,10 +2,11 @@
     Composition of: C01/C06 (what was signed verifies), C14 (the payload depends
     only on canonical content, nil and empty containers identified), C17
     (canonical plugin sources are fixpoints) and C09 (re-parsing the marshalled
-    pipeline yields the same normal form). *)
+    pipeline yields the same normal form), joined by Proofs/RoundtripLink.v: equal
+    marshallings have equal signed content. *)
 From Coq Require Import String List Ascii Bool Arith Permutation.
-From GP Require Import Model.Gv Model.Plugin Model.Pipeline Model.Marshal Model.Jcs Model.Sign
-     Proofs.JcsProofs Proofs.SignProofs Proofs.RoundtripProofs Proofs.PluginProofs.
+From GP Require Import Model.Gv Model.Decode Model.Plugin Model.Pipeline Model.Marshal Model.Reparse Model.Jcs Model.Sign
+     Proofs.MarshalProofs Proofs.JcsProofs Proofs.SignProofs Proofs.RoundtripProofs Proofs.PluginProofs Proofs.ReparseProofs Proofs.RoundtripLink.
 Import ListNotations.
 Local Open Scope string_scope.
 
@@ -31,7 +32,26 @@ Section C02.
     same_signed_content c c' ->
     verify PK vrf (pub k) (sign K alg_of sgn k c repo penv) c' repo penv' = true.
   Proof. exact (RoundtripProofs.signed_roundtrip K PK pub alg_of sgn vrf vrf_ideal). Qed.
+
+  (** END TO END (JSON leg): marshal the signed command step, read the JSON back with
+      CommandStep.UnmarshalOrdered: the decoder accepts it and the signature verifies against the
+      re-read step *)
+  Theorem signature_survives_reparse : forall k c repo penv penv',
+    cmd_ok c -> NoDup (map fst penv) -> NoDup (map fst penv') ->
+    (forall n v, aget n penv = Some v -> aget n penv' = Some v) ->
+    exists c', unm_command (gmap (members (mj_command c))) = Ok c' 0 /\
+               verify PK vrf (pub k) (sign K alg_of sgn k c repo penv) c' repo penv' = true.
+  Proof. exact (RoundtripLink.signature_survives_reparse K PK pub alg_of sgn vrf vrf_ideal). Qed.
 End C02.
+
+(** the link: command steps whose JSON marshallings are equal have the same signed content, and the
+    re-read of a marshalled step marshals to the same JSON *)
+Theorem mj_command_signed_content : forall c c',
+  cmd_ok c -> cmd_ok c' -> mj_command c' = mj_command c -> same_signed_content c c'.
+Proof. exact RoundtripLink.mj_command_signed_content. Qed.
+Theorem command_roundtrip_signed_content : forall c, cmd_ok c ->
+  exists c', unm_command (gmap (members (mj_command c))) = Ok c' 0 /\ same_signed_content c c'.
+Proof. exact RoundtripLink.command_roundtrip_signed_content. Qed.
 
 (** map insertion / iteration order and document key order are irrelevant (C14) *)
 Theorem payload_order_insensitive : forall a vs vs', NoDup (map fst vs) -> Permutation vs vs' ->
@@ -56,3 +76,6 @@ Print Assumptions signed_roundtrip.
 Print Assumptions payload_order_insensitive.
 Print Assumptions canonical_source_stable.
 Print Assumptions nil_empty_identified.
+Print Assumptions signature_survives_reparse.
+Print Assumptions mj_command_signed_content.
+Print Assumptions command_roundtrip_signed_content.
